@@ -439,8 +439,19 @@ pub fn dynamic(prog: &Program, cfg: &Cfg, b: &Binding, diags: &[imp::Diag], stat
                     reads = 1 << 17;
                     let known = nodes[n].known_ecall();
                     if known == Some(num as i32) {
-                        if let Some((args, _)) = environment_in_outs(num as i32) {
-                            reads |= mask(args);
+                        // what the environment reads: the harness's own transcription of the
+                        // service table where it covers the service, else the analyzer's
+                        match crate::model::ecall_arguments(num) {
+                            Some(args) => {
+                                for r in args {
+                                    reads |= 1 << r;
+                                }
+                            }
+                            None => {
+                                if let Some((args, _)) = environment_in_outs(num as i32) {
+                                    reads |= mask(args);
+                                }
+                            }
                         }
                     }
                     writes = CALLER_SAVED;
